@@ -159,6 +159,8 @@ Section AvailSteps.
       pose proof (close_borrow_avail _ _ _ _ _ HG HA E1) as HA1. destr_all H. eapply withdraw_avail; eassumption.
     - unfold fund_mod in H. destr_all H. injection H as <-. exact HA.
     - unfold fund_reserve in H. destr_all H. injection H as <-. exact HA.
+    - destr_all H. injection H as <-. exact HA.
+    - destr_all H. injection H as <-. exact HA.
   Qed.
 
   Lemma run_avail ops : forall st, Good cfg st -> clean cfg st ops -> Avail (lends st) -> Avail (lends (run cfg st ops)).
